@@ -123,17 +123,20 @@ func readEvents(path string) ([]Event, error) {
 
 	const maxEventLineBytes = 10 * 1024 * 1024
 
-	endsWithNewline := false
-	if info, err := file.Stat(); err == nil && info.Size() > 0 {
-		last := make([]byte, 1)
-		if _, err := file.ReadAt(last, info.Size()-1); err == nil {
-			endsWithNewline = last[0] == '\n'
-		}
-	}
-
 	var events []Event
 	scanner := bufio.NewScanner(file)
 	scanner.Buffer(make([]byte, 0, 64*1024), maxEventLineBytes)
+	// Whether the last line was newline-terminated is taken from the bytes the
+	// scanner actually consumed, not from a separate probe: a writer may extend
+	// the file while it is being read without the lock.
+	endsWithNewline := false
+	scanner.Split(func(data []byte, atEOF bool) (int, []byte, error) {
+		advance, token, err := bufio.ScanLines(data, atEOF)
+		if token != nil {
+			endsWithNewline = advance > 0 && data[advance-1] == '\n'
+		}
+		return advance, token, err
+	})
 	var pending []byte
 	pendingNo := 0
 	currentNo := 0
